@@ -67,6 +67,38 @@ declarations:
 - decl: Pt *newPt(void) +owner(caller)
 """
 
+# several typedefs whose headers are the same / differ between C and C++: every collection of headers, typedefs
+# and helpers built while writing the wrappers holds more than one element, so an unordered container shows
+HDRS_LIB = """\
+library: Hdrs
+cxx_header: hdrs.hpp
+options:
+  wrap_python: false
+  wrap_lua: false
+declarations:
+- decl: typedef int IndexType
+  fields:
+    c_header: index_type.h
+    cxx_header: index_type.h
+- decl: typedef long OffsetType
+  fields:
+    c_header: offset_type.h
+    cxx_header: offset_type.h
+- decl: typedef short TagType
+  fields:
+    c_header: tag_type.h
+    cxx_header: tag_type.h
+- decl: typedef double RealType
+  fields:
+    c_header: real_type.h
+    cxx_header: real_type.hpp
+- decl: OffsetType locate(IndexType idx, OffsetType base, TagType tag, RealType w)
+- decl: void fill(IndexType *idx +rank(1), int n +implied(size(idx)))
+- decl: void scale(RealType *v +rank(1)+intent(inout), size_t n +implied(size(v)), int64_t by)
+- decl: const std::string label(TagType tag, const std::string &prefix)
+"""
+
+
 def twin(lang):
     """The same declarations as a C and as a C++ library: both reach the same statement-table
     entries, including those whose clauses differ by language."""
@@ -88,6 +120,7 @@ ALPHABET = [
     ("small", libs.SMALL_CXX, []),
     ("other", libs.OTHER_CXX, []),
     ("fwd", TYPEMAP_LIB, []),
+    ("hdrs", HDRS_LIB, []),
     ("cstr", C_STRINGS, []),
     ("small-as-c-opts", libs.SMALL_CXX, ["--option", "F_CFI=true", "--option", "debug=true"]),
     ("twin-c", None, []),
@@ -324,7 +357,7 @@ def run(ctx):
 
     # ---- other dimensions (fresh interpreters)
     cbase = ctx.subdir("c")
-    sel = alphabet[:4] if quick else alphabet[:6]
+    sel = alphabet[:5] if quick else alphabet[:7]
     jobs = []
     labels = []
     other_cwd = ctx.subdir("elsewhere")
